@@ -56,16 +56,19 @@ def handle (j : Json) : Json :=
       | some l => (match l.role with | .defName _ | .bind | .param => true | _ => false)
       | none => false
     jobj [
-      ("wf", jbool (JediModel.Props.C18.WF p)),
+      ("wf", jbool (WF p)),
       ("context", jarr (poss.map fun pos => jres (getContext p pos))),
       ("body", jarr (poss.map fun pos => jnat (innermostBody p pos))),
-      ("hyp", jarr (poss.map fun pos => jbool (JediModel.Props.C18.ContextHyp p pos))),
+      ("hyp", jarr (poss.map fun pos => jbool (ContextHyp p pos &&
+        (match chooseLeaf p pos with
+         | .ok i => (match p.leaves[i]? with | some l => TreeMatchesText p pos l | none => false)
+         | _ => false)))),
       ("defs", jarr (defs.map jnat)),
       ("chain", jarr (defs.map fun i => jarr ((parentChain p i).map jnat))),
       ("chainhyp", jarr (defs.map fun i => jbool (JediModel.Props.C18.ChainHyp p i))),
       ("full", jarr (defs.map fun i => jnames (fullNameOfLeaf mp p i))),
       ("scopefull", jarr ((List.range p.scopes.length).map fun s => jnames (fullNameOfScope mp p s))),
-      ("qualname", jarr ((List.range p.scopes.length).map fun s => jstr (".".intercalate (qualname p p.fuel s)))),
+      ("qualname", jarr ((List.range p.scopes.length).map fun s => jstr (".".intercalate (qualnameOf p s)))),
       ("allclass", jarr ((List.range p.scopes.length).map fun s => jbool (allClassAncestors p p.fuel s)))]
   | op => jobj [("error", jstr ("unknown op " ++ op))]
 
